@@ -119,6 +119,14 @@ theorem raise {R : α → β → Prop} (e : Err) : Tr R (raise e) (raise e) := b
 
 theorem tyErr {R : α → β → Prop} : Tr R tyErr tyErr := Tr.raise _
 
+/-- `if c then m else raise e` with the same (public) test on both sides -/
+theorem iteElseRaise {R : α → β → Prop} {c1 c2 : Prop} [Decidable c1] [Decidable c2] (hc : c1 ↔ c2) {e : Err}
+    {m1 : M α} {m2 : M β} (h : Tr R m1 m2) :
+    Tr R (if c1 then m1 else Pysnark.raise e) (if c2 then m2 else Pysnark.raise e) := by
+  by_cases h1 : c1
+  · rw [if_pos h1, if_pos (hc.mp h1)]; exact h
+  · rw [if_neg h1, if_neg (fun h2 => h1 (hc.mpr h2))]; exact Tr.raise _
+
 theorem mono {R R' : α → β → Prop} {m1 : M α} {m2 : M β} (h : Tr R m1 m2) (hR : ∀ a b, R a b → R' a b) :
     Tr R' m1 m2 := fun s1 s2 hs => (h s1 s2 hs).mono hR
 
